@@ -57,6 +57,11 @@ def scenarios(ctx):
         s['runs'][0]['args'] = [a if a != 'prog' else 'no_such_module' for a in s['runs'][0]['args']]
         s['meta']['lookup'] = 'missing'
         scs.append(s)
+    # the results cannot be written (output file in a directory that does not exist): main raises, everything else is put back
+    for mode in ('l', 'b', 'plain', 'lm'):
+        s = kplib.scenario(mode, 'none', extra_opts=['-o', 'no_such_dir/out.bin'])
+        s['meta']['outfile'] = 'unwritable'
+        scs.append(s)
     for bad in (['--nonsense', 'prog.py'], ['-l'], ['-u', '-1', 'prog.py'], ['-h']):
         s = kplib.scenario('l', 'none')
         s['runs'][0]['args'] = bad
@@ -107,6 +112,8 @@ def risks_of(meta):
         return r + ['sysExit']
     r.append('none')
     r.append(kplib.KIND_TO_EXC[meta['kind']])
+    if meta.get('outfile') == 'unwritable':
+        r.append('other')              # the final dump is a leaf that can fail
     return r
 
 
@@ -149,6 +156,8 @@ def run(ctx):
             exp_out = OUT_MAP.get(pred['outcome'], '?')
             wrote = any(v['kind'] in ('lprof', 'pstats') for v in real['outputs'].values())
             exp_dump = kplib.count(pred['log'], 'prof.dump_stats(options.outfile)') == 1
+            if meta.get('outfile') == 'unwritable':
+                wrote = exp_dump        # attempted, and failed: nothing is written
             if not real['outcome'].startswith(exp_out) or wrote != exp_dump:
                 kdiff += 1
                 if not oracle(real):
